@@ -594,5 +594,6 @@ def run(ctx):
             "effect on the image passed in; frame=True only for animated images (ImageIterator refuses others)",
             "the code modelled is /repo + pending_fixes/C11_close_unrendered_images.diff",
         ],
-        "trusted": ["impl_c11.py (wrappers around PIL.Image.open and five Image methods, /proc/self/fd listing, local http.server)"],
+        "trusted": ["impl_c11.py (wrappers around PIL.Image.open, Image.close and five Image methods, /proc/self/fd listing, local "
+                    "http.server)", "harness/tx/tx_skel.py (call table of the translated skeletons)"],
     }
